@@ -794,3 +794,34 @@ VARIANTS += [
       "self.arm_to_leaf_to_rewards = {arm: defaultdict(partial(np.ndarray, 0)) for arm in self.arms}",
       "self.arm_to_leaf_to_rewards = {arm: defaultdict(partial(np.empty, 0)) for arm in self.arms}", benign=True),
 ]
+
+# ---------------------------------------------------------------------------------------------------- C02
+VARIANTS += [
+    V("c02-m1", "C02", "linear", "_LinTS.predict", "beta_sampled = np.reshape(beta_sampled, x.shape)", "", "R2.1",
+      why="one feature, several contexts: outer-product broadcast (the repaired defect)"),
+    V("c02-m2", "C02", "linear", "_LinUCB.predict", "ucb = self.alpha * np.sqrt(np.sum(x_A_inv * x, axis=1))",
+      "ucb = self.alpha * np.sqrt(np.sum(x_A_inv * x, axis=0))", "R2.1",
+      why="bonus summed over contexts instead of features"),
+    V("c02-m3", "C02", "linear", "_RidgeRegression.fit", "self.A = self.A + np.dot(Xt, X)",
+      "self.A = self.A + np.dot(X, Xt)", "R2.1", why="Gram matrix of rows instead of features"),
+    V("c02-m4", "C02", "linear", "_RidgeRegression.fit", "self.beta = np.dot(self.A_inv, self.Xty)",
+      "self.beta = np.dot(self.Xty, self.A)", "R2.3", why="coefficients computed from A instead of its inverse"),
+    V("c02-m5", "C02", "linear", "_RidgeRegression.init", "self.Xty = np.zeros(num_features)",
+      "self.Xty = np.ones(num_features)", "R2.2", why="never-observed arm starts with non-zero X'y"),
+    V("c02-m6", "C02", "linear", "_Linear._vectorized_predict_context",
+      "arm_expectations[nonrandom_indices] = np.array([self.arm_to_model[arm].predict(nonrandom_context) "
+      "for arm in arms]).T",
+      "arm_expectations[nonrandom_indices] = np.array([self.arm_to_model[arm].predict(nonrandom_context) "
+      "for arm in arms])", "R2.1", why="per-arm stack not transposed"),
+    V("c02-m7", "C02", "linear", "_RidgeRegression.fit", "self.A_inv = np.linalg.inv(self.A)",
+      "self.A_inv = np.linalg.inv(np.dot(Xt, X) + self.l2_lambda * np.identity(X.shape[1]))", "R2.3",
+      why="inverse computed from the last chunk only"),
+    V("c02-m8", "C02", "linear", "_RidgeRegression.predict", "return np.dot(x, self.beta)",
+      "return np.dot(x, self.beta) + np.sum(self.Xty)", "R2.3", why="prediction reads an undocumented field"),
+    V("c02-m9", "C02", "linear", "_Linear._uptake_new_arm",
+      "if is_fitted:\n    self.arm_to_model[arm].init(num_features=self.num_features)", "", "R2.3",
+      why="model of an arm added after fit is never initialised"),
+    V("c02-b1", "C02", "linear", "_LinUCB.predict", "x_A_inv = np.dot(x, self.A_inv)",
+      "inverse = self.A_inv\nx_A_inv = np.dot(x, inverse)", benign=True),
+    V("c02-b2", "C02", "linear", "_RidgeRegression.fit", "Xt = X.T", "Xt = X.T\npass", benign=True),
+]
